@@ -128,10 +128,13 @@ def run(ctx):
                 ctx.fail("server saw no request", meta, None, "one request")
                 continue
             got = seen["body"]
-            if ce == "gzip":
-                got = gzip.decompress(got)
-            elif ce == "deflate":
-                got = zlib.decompress(got)
+            try:
+                if ce == "gzip":
+                    got = gzip.decompress(got)
+                elif ce == "deflate":
+                    got = zlib.decompress(got)
+            except Exception as e:
+                got = b"!undecodable: " + repr(e).encode()
             if got != msg:
                 ctx.fail("server did not receive the envelope bytes", meta, got[:40], msg[:40])
             for k, v in headers.items():
@@ -217,6 +220,7 @@ def run(ctx):
             t = suds.transport.http.HttpTransport()
             jar = {}
             hist = []
+            reuse = suds.transport.Request(srv.url(), b"<m/>") if rng.random() < 0.5 else None
             for step in range(rng.randint(2, 5)):
                 act = rng.choice(["set", "replace", "expire", "otherpath", "none"])
                 name = rng.choice(["sid", "k2"])
@@ -231,7 +235,7 @@ def run(ctx):
                     sc = []
                 srv.httpd.plan = lambda h, sc=sc: {"status": 200, "body": b"<ok/>", "headers": sc}
                 del srv.httpd.seen[:]
-                t.send(suds.transport.Request(srv.url(), b"<m/>"))
+                t.send(reuse if reuse is not None else suds.transport.Request(srv.url(), b"<m/>"))
                 sent = hdr(srv.httpd.seen[-1], "Cookie")
                 got = {}
                 for c in (sent[0].split("; ") if sent else []):
